@@ -65,6 +65,8 @@ func c18Forgery(rep *verifkit.Report, ci int, r *rand.Rand) {
 			mu.Lock()
 			forgedOn = vc.id
 			mu.Unlock()
+			// an application call is already waiting for the handshake when the accept arrives
+			time.Sleep(time.Duration(30+r.Intn(50)) * time.Millisecond)
 			vc.sendAccept(forge, ph)
 			time.Sleep(time.Duration(10+r.Intn(40)) * time.Millisecond)
 			c18DataBurst(vc)
@@ -77,6 +79,18 @@ func c18Forgery(rep *verifkit.Report, ci int, r *rand.Rand) {
 		rep.Inconc(ci, "env: "+err.Error())
 		return
 	}
+	// requests issued before the accept: they wait for the handshake, which a forged accept never
+	// completes
+	var callWG sync.WaitGroup
+	ncalls := r.Intn(3)
+	for k := 0; k < ncalls; k++ {
+		callWG.Add(1)
+		go func(k int) {
+			defer callWG.Done()
+			e.rc.GetTx(vQuiet, *vTx(uint32(880000 + ci*10 + k)).TxHash())
+		}(k)
+	}
+	defer callWG.Wait()
 	select {
 	case <-burstDone:
 	case <-time.After(10 * time.Second):
@@ -119,6 +133,23 @@ func c18Forgery(rep *verifkit.Report, ci int, r *rand.Rand) {
 		if data > 0 {
 			rep.Finding(ci, "C18/forged-accept-data-delivered/"+shape, fmt.Sprintf("%d data notifications reached handlers after a forged accept", data), w)
 		}
+		// nothing but handshake messages was written to the connection whose accept was forged
+		mu.Lock()
+		fo := forgedOn
+		mu.Unlock()
+		for _, vc := range e.srv.connections() {
+			if vc.id != fo {
+				continue
+			}
+			for _, a := range vc.snapshot() {
+				switch a.Type {
+				case MessageTypeRegister, MessageTypeSubscribePushData, MessageTypeUnsubscribePushData, MessageTypeSubscribeContracts, MessageTypeUnsubscribeContracts,
+					MessageTypeSubscribeHeaders, MessageTypeUnsubscribeHeaders, MessageTypeSubscribeTx, MessageTypeUnsubscribeTx, MessageTypeSubscribeOutputs, MessageTypeUnsubscribeOutputs, MessageTypeReady, MessageTypePing:
+				default:
+					rep.Finding(ci, "C18/forged-accept-request-written/"+shape, fmt.Sprintf("%s was written to a connection whose accept was forged (%s)", MessageTypeNames[a.Type], forge), w)
+				}
+			}
+		}
 		if !runEnded {
 			rep.Finding(ci, "C18/forged-accept-connection-not-failed/"+shape, "the client kept running after a forged accept", w)
 		} else if runErr == nil || !(strings.Contains(runErr.Error(), ErrWrongKey.Error()) || strings.Contains(runErr.Error(), ErrBadSignature.Error())) {
@@ -159,6 +190,7 @@ type c18ConnInfo struct {
 	regAt     time.Duration
 	hpAt      time.Duration // server-side handshake point (accept written / Ready arrived); 0 = never
 	hash      bitcoin.Hash32
+	acceptedWithoutAccept bool // IsAccepted() was true on a connection that never got an accept
 }
 
 func c18Gating(rep *verifkit.Report, ci int, r *rand.Rand) {
@@ -177,6 +209,13 @@ func c18Gating(rep *verifkit.Report, ci int, r *rand.Rand) {
 			p = c18Plan{Kind: "silent"}
 		case k < 5 && i < nplans-1:
 			p = c18Plan{Kind: "garbage-before-accept", AcceptMS: 20 + r.Intn(60)}
+		case k < 7 && i < nplans-2:
+			// accepted, and dropped before the client has digested the accept; the next
+			// connection is one that never gets an accept
+			p = c18Plan{Kind: "normal", AcceptMS: 0, LifeMS: -1}
+		}
+		if i > 0 && plans[i-1].LifeMS == -1 {
+			p = c18Plan{Kind: "silent"}
 		}
 		if i == nplans-1 {
 			p.Kind = "normal"
@@ -187,6 +226,7 @@ func c18Gating(rep *verifkit.Report, ci int, r *rand.Rand) {
 	var mu sync.Mutex
 	infos := map[int]*c18ConnInfo{}
 	var srvStart time.Time
+	var envRef *cEnv
 	e, err := newCEnv(cOpt{connType: connType, requestTimeout: 250 * time.Millisecond, messageTimeout: 250 * time.Millisecond,
 		handshakeTO: 150 * time.Millisecond, retryDelay: 15 * time.Millisecond, autoReady: true},
 		func(vc *vconn) {
@@ -205,6 +245,18 @@ func c18Gating(rep *verifkit.Report, ci int, r *rand.Rand) {
 				vc.c.Close()
 				return
 			case "silent":
+				// this connection gets no accept: the client must not regard it as accepted
+				go func() {
+					time.Sleep(30 * time.Millisecond)
+					for envRef == nil {
+						time.Sleep(time.Millisecond)
+					}
+					if envRef.rc.IsAccepted(vQuiet) {
+						mu.Lock()
+						info.acceptedWithoutAccept = true
+						mu.Unlock()
+					}
+				}()
 				for range vc.in { // never accept; the client's handshake time-out ends it
 				}
 				return
@@ -226,6 +278,11 @@ func c18Gating(rep *verifkit.Report, ci int, r *rand.Rand) {
 			info.hpAt = time.Since(vc.srv.start)
 			mu.Unlock()
 			vc.sendAccept("", nil)
+			if p.LifeMS == -1 {
+				time.Sleep(time.Duration(r.Intn(3)) * time.Millisecond)
+				vc.c.Close()
+				return
+			}
 			var closeAt <-chan time.Time
 			for {
 				select {
@@ -262,6 +319,7 @@ func c18Gating(rep *verifkit.Report, ci int, r *rand.Rand) {
 		rep.Inconc(ci, "env: "+err.Error())
 		return
 	}
+	envRef = e
 	// application goroutines
 	var cmu sync.Mutex
 	var calls []*c18CallRec
@@ -338,6 +396,9 @@ func c18Gating(rep *verifkit.Report, ci int, r *rand.Rand) {
 		}
 		if !vc.regOK {
 			rep.Finding(ci, "C18/register-signature-invalid", fmt.Sprintf("register of connection %d does not verify under the configured client key", vc.id), w())
+		}
+		if info.acceptedWithoutAccept {
+			rep.Finding(ci, "C18/accepted-without-accept/"+connType.String(), fmt.Sprintf("connection %d never got an accept message, yet IsAccepted() was true 30 ms after its register arrived (the previous connection had been accepted and dropped at once)", vc.id), w())
 		}
 		if prev, dup := hashes[info.hash]; dup {
 			rep.Finding(ci, "C18/register-hash-reused", fmt.Sprintf("connections %d and %d used the same session hash", prev, vc.id), w())
